@@ -389,32 +389,39 @@ def check_templates(model: Model, report: Report, rule: str) -> None:
             runs = paths(model, body)
         except Unsupported as err:
             return None, str(err), fn
-        if len(runs) != 1 or runs[0].kind != "return":
-            return None, "more than one path or raises", fn
-        r, marks = runs[0].value
-        return merge_consts(flatten(r)), None, (fn, marks)
+        if any(r.kind != "return" for r in runs):
+            return None, "raises on some path", fn
+        outs = []
+        for run in runs:
+            r, marks = run.value
+            outs.append((merge_consts(flatten(r)), marks, {str(k): str(v) for k, v in run.ctx.world.items()}))
+        return outs, None, fn
 
     def judge(cls_q: str, attrs_fn: Any, want_fn: Any, what: str) -> None:
-        got, err, extra = run_str(cls_q, attrs_fn)
+        outs, err, fn = run_str(cls_q, attrs_fn)
         fnq = cls_q + ".__str__"
-        if got is None:
+        if outs is None:
             report.undecided(rule, fnq, f"{what}: {err}")
             return
-        fn, marks = extra
-        want = merge_consts(want_fn(marks))
-        same = len(got) == len(want)
-        if same:
-            for g, w in zip(got, want):
-                if isinstance(w, str):
-                    same &= g == w
-                else:
-                    same &= isinstance(g, tuple) and g[0] == w[0] and (g[1] is w[1] or (isinstance(g[1], IntV) and isinstance(w[1], IntV) and g[1].lin == w[1].lin))
-        if same:
-            report.ok(rule, fnq, what)
-        else:
-            show = [x if isinstance(x, str) else f"<{x[0]} {describe(x[1])}>" for x in got]
-            showw = [x if isinstance(x, str) else f"<{x[0]} {describe(x[1])}>" for x in want]
-            report.fail(rule, fnq, f"template:{what}", f"{what} renders as {show}, expected {showw}", file=fn.file, line=fn.line)
+        all_same = True
+        for got, marks, world in outs:
+            want = merge_consts(want_fn(marks))
+            same = len(got) == len(want)
+            if same:
+                for g, w in zip(got, want):
+                    if isinstance(w, str):
+                        same &= g == w
+                    else:
+                        same &= isinstance(g, tuple) and g[0] == w[0] and (g[1] is w[1] or (isinstance(g[1], IntV) and isinstance(w[1], IntV) and g[1].lin == w[1].lin))
+            if not same:
+                all_same = False
+                show = [x if isinstance(x, str) else f"<{x[0]} {describe(x[1])}>" for x in got]
+                showw = [x if isinstance(x, str) else f"<{x[0]} {describe(x[1])}>" for x in want]
+                cond = f" on the path assuming {world}" if len(outs) > 1 else ""
+                report.fail(rule, fnq, f"template:{what}", f"{what} renders as {show}, expected {showw}{cond}", file=fn.file, line=fn.line)
+                break
+        if all_same:
+            report.ok(rule, fnq, what, detail={"paths": len(outs)})
 
     canon = model.functions.get("serialize.canonical_string")
 
